@@ -70,7 +70,7 @@ func inlinedCalls(fn *ssa.Function, target string, depth int) []inlinedCall {
 }
 
 func c05(c *core.Ctx) map[string]interface{} {
-	c.Explanation = "Static wiring check of the 5G-AKA key hierarchy (C05). Decided: (R5.fc) the FC constants are 6A/6B/6C/6D/69 (TS 33.501 Annex A) and each derivation uses the FC of its role; (R5.pl) every KDF parameter is followed by the 2-octet big-endian length of the same value (TS 33.220 B.2), the parameter lists are K_AUSF(SNN, SQN xor AK = AUTN[0..5]), K_SEAF(SNN), K_AMF(SUPI digits, ABBA 00 00), K_NASenc(0x01, ciphering alg), K_NASint(0x02, integrity alg); (R5.chain) each derivation is keyed with the output of the previous one starting from CK||IK of one f2345 run over the function's RAND, the 128-bit NAS keys are octets 16..31 of the KDF output and land in KnasEnc resp. KnasInt; (R5.kdf) GetKDFValue is HMAC-SHA-256(key, FC || P0 || L0 || ...) and KDFLen a 2-octet big-endian length; (R5.op) Milenage is built from OP exactly when no OPc is configured and from OPc otherwise, and RES* is ComputeRESStar(mcc, mnc) of the same Milenage instance. Calls are collected through same-package helpers (inlining depth 3). (R5.pure) no package-level cache or scratch buffer is reachable from the derivation functions (keys depend on this call's inputs only); (R1.snn) the serving network name handed to the derivation is 5G:mnc<3 digits>.mcc<mcc>.3gppnetwork.org built from the MNC and MCC parameters in their roles. NOT decided: HMAC/SHA-256/AES arithmetic and the Milenage library github.com/wmnsk/milenage (trusted), numerical equality with a network-side implementation. (components) the rule set of C15 (Milenage f1..f5*, AUTN/AUTS checks) is run as part of this check."
+	c.Explanation = "Static wiring check of the 5G-AKA key hierarchy (C05). Decided: (R5.fc) the FC constants are 6A/6B/6C/6D/69 (TS 33.501 Annex A) and each derivation uses the FC of its role; (R5.pl) every KDF parameter is followed by the 2-octet big-endian length of the same value (TS 33.220 B.2), the parameter lists are K_AUSF(SNN, SQN xor AK = AUTN[0..5]), K_SEAF(SNN), K_AMF(SUPI digits, ABBA 00 00), K_NASenc(0x01, ciphering alg), K_NASint(0x02, integrity alg); (R5.chain) each derivation is keyed with the output of the previous one starting from CK||IK of one f2345 run over the function's RAND, the 128-bit NAS keys are octets 16..31 of the KDF output and land in KnasEnc resp. KnasInt; (R5.kdf) GetKDFValue is HMAC-SHA-256(key, FC || P0 || L0 || ...) and KDFLen a 2-octet big-endian length; (R5.op) Milenage is built from OP exactly when no OPc is configured and from OPc otherwise, and RES* is ComputeRESStar(mcc, mnc) of the same Milenage instance. Calls are collected through same-package helpers (inlining depth 3). (R5.abort) the derivation ends the process only on a decode or library error, and a MAC-A verification added to it has to use the AMF octets of the received AUTN; (R5.pure) no package-level cache or scratch buffer is reachable from the derivation functions (keys depend on this call's inputs only); (R1.snn) the serving network name handed to the derivation is 5G:mnc<3 digits>.mcc<mcc>.3gppnetwork.org built from the MNC and MCC parameters in their roles. NOT decided: HMAC/SHA-256/AES arithmetic and the Milenage library github.com/wmnsk/milenage (trusted), numerical equality with a network-side implementation. (components) the rule set of C15 (Milenage f1..f5*, AUTN/AUTS checks) is run as part of this check."
 	c.Assumptions = []string{"crypto/hmac, crypto/sha256 and github.com/wmnsk/milenage (f2345, ComputeRESStar incl. its own FC 6B and SNN construction) are correct",
 		"FC values per TS 33.501: A.2 K_AUSF 0x6A, A.4 RES* 0x6B, A.6 K_SEAF 0x6C, A.7 K_AMF 0x6D, A.8 algorithm keys 0x69"}
 	r5fc(c)
@@ -79,6 +79,7 @@ func c05(c *core.Ctx) map[string]interface{} {
 	r5alg(c)
 	r5derive(c)
 	r5pure(c)
+	r5abort(c)
 	r1snn(c)
 	include(c, "C15")
 	return nil
@@ -398,4 +399,60 @@ func r5pure(c *core.Ctx) {
 	entries := []*ssa.Function{mustFunc(c, pTglib, "RanUeContext.DeriveRESstarAndSetKey"), mustFunc(c, pTglib, "RanUeContext.DerivateKamf"),
 		mustFunc(c, pTglib, "RanUeContext.DerivateAlgKey"), mustFunc(c, pUeau, "GetKDFValue"), mustFunc(c, pUeau, "KDFLen"), mustFunc(c, pTglib, "GetAuthSubscription")}
 	pureState(c, "R5.pure", "5G-AKA key derivation (DeriveRESstarAndSetKey, DerivateKamf, DerivateAlgKey, GetKDFValue)", entries, nil)
+}
+
+// r5abort: DeriveRESstarAndSetKey may end the process only on an error of a decode or
+// library call (a malformed configured key, a Milenage error). Any other abort
+// condition rejects an authentication challenge on the UE's own judgement; the one
+// legitimate judgement is MAC-A verification, and that has to use the AMF octets of
+// the received AUTN (autn[6:8]) — the AMF of a conformant network is its own choice,
+// not the value stored with the subscription.
+func r5abort(c *core.Ctx) {
+	const R = "R5.abort"
+	c.Rule(R, "DeriveRESstarAndSetKey aborts only on decode/library errors; a MAC-A check, if present, is computed over the AUTN's own AMF octets")
+	fn := mustFunc(c, pTglib, "RanUeContext.DeriveRESstarAndSetKey")
+	p := core.NewPather(fn)
+	n := 0
+	amfFromSubscription := false
+	for _, ci := range core.Calls(fn) {
+		name := core.CalleeName(ci.Common())
+		if strings.HasPrefix(name, "github.com/wmnsk/milenage.New") {
+			for _, a := range ci.Common().Args {
+				if strings.Contains(p.Path(a), "AuthenticationManagementField") {
+					amfFromSubscription = true
+				}
+			}
+		}
+	}
+	ord := ordinals{}
+	for _, ci := range core.Calls(fn) {
+		name := core.CalleeName(ci.Common())
+		isAbort := strings.HasSuffix(name, "/fatal.Fatalf") || strings.HasSuffix(name, "/fatal.Fatal") || strings.HasPrefix(name, "log.Fatal") || name == "os.Exit" || strings.HasPrefix(name, "log.Panic")
+		if !isAbort {
+			continue
+		}
+		n++
+		key := "tglib.DeriveRESstarAndSetKey:" + ord.next("abort")
+		conds := dominatingConds(p, ci.Block())
+		if len(conds) == 0 {
+			c.Fail(R, key, ci.Pos(), "unconditional abort")
+			continue
+		}
+		cnd := conds[0]
+		switch {
+		case strings.HasSuffix(cnd, "!=nil)=T") || strings.HasSuffix(cnd, "==nil)=F"):
+			c.Ok(R, key, ci.Pos(), "abort on "+clip(cnd))
+		case strings.Contains(cnd, "bytes.Equal(") || strings.Contains(cnd, "reflect.DeepEqual(") || strings.Contains(cnd, "subtle.ConstantTimeCompare("):
+			if amfFromSubscription {
+				c.Fail(R, key, ci.Pos(), "the UE aborts the authentication when its own MAC-A differs from the one in AUTN, but computes MAC-A with the AMF field stored in the subscription data (AuthenticationManagementField) instead of the AMF octets of the received AUTN (autn[6:8]): every network whose AMF field differs from the configured constant is rejected although its AUTN is valid")
+			} else {
+				c.SoftUndecided("DeriveRESstarAndSetKey verifies a MAC (%s); the inputs of that verification are not modelled", clip(cnd))
+			}
+		default:
+			c.SoftUndecided("DeriveRESstarAndSetKey aborts under a condition that is not an error test: %s", clip(cnd))
+		}
+	}
+	if n < 3 {
+		c.Undecided("R5.abort: only %d abort sites found in DeriveRESstarAndSetKey (expected 5)", n)
+	}
 }
